@@ -206,4 +206,8 @@ def run(ctx):
     # the LinuxDsoDebug entry names exactly the record plus the bytes appended behind it (same rule instance as C18/dso-extent)
     from rules import c18 as _c18
     _c18.rule_dso_extent(ctx, R="C10/dso-extent")
+    # a stack descriptor that names a position is followed, on every path to a success return, by the append of exactly those bytes
+    # (same rule instance as C01/pos-append)
+    from rules import c01 as _c01pa
+    _c01pa.rule_pos_append(ctx, R="C10/stack-descriptor-then-bytes")
 
